@@ -31,6 +31,16 @@ def handle (op : String) (a : Json) : Except String Json := do
       let d ← save c (← (optDir a "audio_dir").mapError fun _ => Err.type)
       pure ((lst d.recordings).map fun r => (r.uuid, r.path))
     return exceptJ pairsJ r
+  | "stored_history" =>
+    -- consecutive saves in one process, each with its own audio directory: every step is judged on its own
+    let steps ← fldArr a "steps"
+    let outs ← steps.mapM fun st => do
+      let c : Collection ← fromJson? (← fld st "collection")
+      let r := do
+        let d ← save c (← (optDir st "audio_dir").mapError fun _ => Err.type)
+        pure ((lst d.recordings).map fun r => (r.uuid, r.path))
+      pure (exceptJ pairsJ r)
+    return arrJ outs
   | "relocate" =>
     -- recording paths of `load (save c A) B`
     let c : Collection ← fromJson? (← fld a "collection")
